@@ -15,6 +15,8 @@ META = {
     "assumptions": ["substrate fidelity (conformance-tested)", "Inv over-approximates reachable stacks"],
 }
 
+SERIAL_TRIAGE = True  # confirm() uses in-process substrate state (history search)
+
 
 def prechecks(tier):
     return [("vt.substrate.conformance", "precheck", {"n": 60})]
